@@ -141,8 +141,12 @@ pub fn pool() -> Vec<MVal> {
         v.push(MVal::Float(*f));
     }
     v.extend([MVal::Float(f64::NAN), MVal::Float(f64::INFINITY), MVal::Float(f64::NEG_INFINITY), MVal::Float(1e9), MVal::Float(-1e19), MVal::Float(0.1), MVal::Float(1e15 + 0.5)]);
-    for d in ["1.0", "1e1000", "-1e1000", "0.0", "-0.0", "1e-400", "100e-2", "1.10"] {
+    for d in ["1.0", "1e1000", "-1e1000", "0.0", "-0.0", "1e-400", "100e-2", "1.10", "+1.5", "+0.0", "+1e1000"] {
         v.push(MVal::Dec(d.into()));
+        // the value that jaq computes as its negation (a decimal literal again, whatever text jaq gives it)
+        if let Ok(n) = vcore::jq::eval1("-$x", &[("x", MVal::Dec(d.into()).to_val())], jaq_json::Val::Null) {
+            v.push(MVal::from_val(&n));
+        }
     }
     for s in [
         "", "a", "abc", "A b", "é€😀", "\u{0}", " \t\n", "%Y-%m-%dT%H:%M:%SZ", "%s", "%", "%Q", "%Z %z %j %G-W%V-%u", "%9999999999Y", "2015-03-05T23:51:47Z", "2015-03-05T23:51:47.123456+01:00", "10000-01-01T00:00:00Z", "-9999-12-31T23:59:60Z", "1", "1.5", "-0", "nan", "true", "null", "[1,2]",
